@@ -361,6 +361,11 @@ def cases(tier, seed):
     for loc in LOCS:
         for eps in EPS_ARCMIN:
             yield "cli", dict(mask=511, loc=loc, eps=eps)
+    # decisive links very close to the linking length (the regular lattice keeps every pair >= 1e-3 away from it)
+    for eps in (1.0, 4.0):
+        for delta in (1e-5, 1e-4):
+            for k in range(8):
+                yield "near_tie", dict(eps=eps, delta=delta, k=k)
 
 
 # ---------------------------------------------------------------------------------------------------------------
@@ -387,6 +392,47 @@ def ev_dbscan(case, ctx):
         if chain:
             ctx.count("dbscan_catalogues_with_chain_only_pairs")
         ctx.outcome("dbscan:%s%s%s" % (outcome, ":chain" if chain else "", ":VIOLATION" if bad else ""))
+
+
+def ev_near_tie(case, ctx):
+    """three-source chains A - B - C at a generic sky position: |AB| = 0.5 eps, |BC| = eps (1 +- delta).  For eps <= 4 arcmin
+    the callers' chord conversion sin(eps) vs 2 sin(eps/2) is off by eps^2/8 <= 1.7e-7 relative, far below delta, so whether
+    C belongs to the group of A and B is decided by the sign of delta alone."""
+    from mc.oracles import sphere
+    eps, delta, k = case["eps"], case["delta"], case["k"]
+    eps_deg = eps / 60.0
+    eps_chord = np.sin(np.radians(eps / 60))
+    ra0 = [33.7, 121.3, 205.9, 289.1, 347.3, 77.7, 158.2, 251.6][k] + core.seed_shift(ctx.seed, 60, 0.5)
+    dec0 = [-41.3, 27.8, -8.9, 58.4, -63.2, 12.6, -25.1, 44.9][k]
+    bearing_ab = 37.0 + 41.0 * k
+    bearing_bc = 113.0 + 29.0 * k
+    for sign in (+1, -1):
+        rb, db = sphere.destination(ra0, dec0, 0.5 * eps_deg, bearing_ab)
+        rb, db = float(rb), float(db)
+        rc, dc = sphere.destination(rb, db, eps_deg * (1 + sign * delta), bearing_bc)
+        rc, dc = float(rc), float(dc)
+        pts = [(ra0, dec0), (rb, db), (rc, dc)]
+        d_bc = float(sphere.dist(rb, db, rc, dc))
+        d_ac = float(sphere.dist(ra0, dec0, rc, dc))
+        if abs(d_bc / eps_deg - (1 + sign * delta)) > delta * 0.05 or d_ac <= eps_deg * (1 + 10 * delta):
+            continue        # construction not decisive for this geometry
+        where = "near_tie:eps=%g',delta=%+g,k=%d" % (eps, sign * delta, k)
+        ctx.count("near_tie")
+        ctx.nontrivial(where)
+        expect = [frozenset([0, 1, 2])] if sign < 0 else [frozenset([0, 1]), frozenset([2])]
+        for perm in itertools.permutations(range(3)):
+            cat = [_mk_source(i, pts[i][0], pts[i][1], 1.0 + 0.1 * i, 30.0, 10.0) for i in perm]
+            try:
+                groups = cluster.regroup_dbscan(cat, eps=eps_chord)
+            except Exception as e:
+                ctx.violation("regroup_dbscan raised %r (%s)" % (e, where), "near_tie_raise|" + where)
+                break
+            got = sorted((frozenset(int(str(s_.uuid)[-3:]) for s_ in g) for g in groups), key=sorted)
+            if got != sorted(expect, key=sorted):
+                ctx.violation("sources B and C are %.9f linking lengths apart (eps = %g arcmin) but the grouping is %r, expected %r (%s, row order %r)" % (
+                    d_bc / eps_deg, eps, [sorted(g) for g in got], [sorted(g) for g in expect], where, perm), "near_tie|" + where)
+                break
+        ctx.outcome("near_tie:%s" % ("joined" if sign < 0 else "separate"))
 
 
 def ev_ellip(case, ctx):
@@ -569,4 +615,6 @@ CLAUSES = dict(dbscan=ev_dbscan, ellip=ev_ellip, cli=ev_cli, resize=ev_resize)
 
 
 def evaluate(clause, case, ctx):
+    if clause == "near_tie":
+        return ev_near_tie(case, ctx)
     CLAUSES[clause](case, ctx)
